@@ -18,7 +18,7 @@ ASSUMPTIONS = ["numpy.linalg.svd in float64 is the trusted reference",
                "randomized_svd asserted only when n_eigenvecs + n_oversamples covers the numerical rank",
                "masked SVD (imputation loop) is not part of the statement and is not exercised"]
 METHODS = ["truncated_svd", "symeig_svd", "randomized_svd", "callable", "direct_truncated"]
-CLASSES = ["generic", "rankdef", "repeated", "integer", "nonneg", "diag", "generic"]
+CLASSES = ["generic", "rankdef", "repeated", "integer", "nonneg", "diag", "generic", "balanced-signs", "symmetric-singular"]
 
 
 def plan(tier, seed):
@@ -61,6 +61,33 @@ def make_matrix(rs, cls, d1, d2, dt):
         M[np.arange(m), k] = rs.standard_normal(m) * (rs.uniform(size=m) < 0.8)
         if d2 > m:
             M[:, m:] = 0
+    elif cls == "balanced-signs":
+        # structured data whose singular vectors have their largest positive and negative entries of exactly equal magnitude:
+        # rows/columns that are exact negatives of each other, +-1 designs (Hadamard-like), two opposite columns
+        how = rs.randint(3)
+        if how == 0:
+            base = rs.randint(1, 4, size=(max(d1 // 2, 1), d2)).astype(float)
+            M = np.concatenate([base, -base, np.zeros((max(d1 - 2 * base.shape[0], 0), d2))], axis=0)[:d1]
+        elif how == 1:
+            M = rs.choice([-1.0, 1.0], size=(d1, d2))
+        else:
+            c = rs.standard_normal((d1, 1))
+            M = np.concatenate([c, -c] * ((d2 + 1) // 2), axis=1)[:, :d2] * rs.choice([1.0, 2.0], size=(1, d2))
+    elif cls == "symmetric-singular":
+        # exactly symmetric, singular (an exact zero eigenvalue): diagonal with zeros, [[1,-1],[-1,1]] blocks, block structure
+        n = min(d1, d2)
+        how = rs.randint(3)
+        S = np.zeros((n, n))
+        if how == 0:
+            S[np.arange(n), np.arange(n)] = rs.randint(-2, 3, size=n)
+        elif how == 1:
+            for i in range(0, n - 1, 2):
+                S[i:i + 2, i:i + 2] = np.array([[1.0, -1.0], [-1.0, 1.0]]) * rs.randint(1, 4)
+        else:
+            v = rs.randint(-2, 3, size=(n, max(n - 1, 1))).astype(float)
+            S = v @ v.T
+        M = np.zeros((d1, d2))
+        M[:n, :n] = S
     else:
         raise ValueError(cls)
     return M.astype(dt)
